@@ -30,6 +30,10 @@ def check(ctx):
     from . import c02
     c02.scan_rules(ctx, P)
     c02.sentinel_tests(ctx, P)
+    # customers sharing a PS server hold no Server object, so the renege scan's `not ind.server` filter cannot tell them from waiting ones: the scan must
+    # not run where c is infinite (shared instance, C13) -- otherwise a customer leaves in the middle of its service with part of its work done
+    from . import c13
+    c13.renege_scan(ctx, P)
     ctx.assume("no blocking into/out of PS nodes (property's own proviso)")
 
 
